@@ -68,7 +68,7 @@ def _has_var(t, _cache={}):
     return r
 
 
-def instantiate(ground, schemas, rounds=3, cap=4000, per_sort_cap=80):
+def instantiate(ground, schemas, rounds=3, cap=6000, per_sort_cap=160):
     """Return ground instances of the schemas relevant to `ground` (list of z3 Bool)."""
     import itertools
     out = []
@@ -171,5 +171,30 @@ def exists_witness(path, n, pred, name="ex"):
     b = path.fresh(name, z3.BoolSort())
     w = path.fresh(name + "_w", z3.IntSort())
     path.assume(z3.Implies(b, z3.And(w >= 0, w < n, pred(w))))
-    path.assume(Q([z3.IntSort()], lambda j: z3.Implies(z3.And(j >= 0, j < n, pred(j)), b), name=name + "-intro"))
+    trig, pick = _auto_trigger(pred)
+    path.assume(Q([z3.IntSort()], lambda j: z3.Implies(z3.And(j >= 0, j < n, pred(j)), b), trigger=trig, pick=pick, name=name + "-intro"))
     return b
+
+
+def _auto_trigger(pred):
+    """If pred(j) mentions j as a direct argument of an uninterpreted function, that application is the trigger of the
+    introduction schema: the schema is only useful for a j about which pred(j) is known, and then such an application is in
+    the query.  (None, None): instantiate over the Int terms of the query as before.)"""
+    j0 = z3.Int("trigger_probe!")
+    try:
+        t = pred(j0)
+    except Exception:
+        return None, None
+    stack, seen = [t], set()
+    while stack:
+        x = stack.pop()
+        if x.get_id() in seen or not z3.is_app(x):
+            continue
+        seen.add(x.get_id())
+        kids = x.children()
+        if x.decl().kind() == z3.Z3_OP_UNINTERPRETED and kids:
+            for i, c in enumerate(kids):
+                if c.eq(j0):
+                    return x.decl(), [i]
+        stack.extend(kids)
+    return None, None
